@@ -400,6 +400,7 @@ var conditionalLoops = map[string]string{
 	"crypto.BatchVerify|add loop":                                   "the single-pair fast path delegates to Key.Verify",
 	"p2p.buildTransactionsPayload|txs":                              "rotated `for range n` loop: the zero-trip guard skips it for an empty list",
 	"storage.finalizeTransaction|unspent outputs":                   "idempotent early return when the finalization record exists (C15)",
+	"(*kernel.Node).popAndProcessCacheQueue|retrieved":              "the early returns precede the retrieval: nothing has been dequeued yet",
 }
 
 // loopVisitsAll records, once per check and loop, that an anchored loop visits every element.
